@@ -631,6 +631,39 @@ def norm_cmp(c):
     return (op, a, b)
 
 
+PRIM_BYTES = {'u8': 1, 'i8': 1, 'u16': 2, 'i16': 2, 'u32': 4, 'i32': 4, 'f32': 4, 'u64': 8, 'i64': 8, 'f64': 8, 'u128': 16, 'i128': 16}
+
+
+def whole_byte_view(v):
+    """(S, k) if v is the byte view of a whole slice S of k-byte elements built from raw parts:
+    `core::slice::from_raw_parts(S.as_ptr().cast::<u8>(), S.len() * k)` (either order of the product; `size_of_val(S)`
+    gives k = None, to be read as "whatever the element size is"); None otherwise"""
+    v = strip(v)
+    if not (isinstance(v, tuple) and len(v) > 4 and v[0] == 'call' and v[1] == 'from_raw_parts' and len(v[3]) == 2):
+        return None
+    if not (v[4] and str(v[4][-1]) == 'u8'):
+        return None
+    p, n = strip(v[3][0]), strip(v[3][1])
+    for _ in range(3):
+        if isinstance(p, tuple) and p and ((p[0] == 'call' and p[1] == 'cast' and p[3]) or p[0] == 'cast'):
+            p = strip(p[3][0]) if p[0] == 'call' else strip(p[2])
+        else:
+            break
+    if not (isinstance(p, tuple) and len(p) > 3 and p[0] == 'call' and p[1] == 'as_ptr' and len(p[3]) == 1):
+        return None
+    S = strip(p[3][0])
+    if isinstance(n, tuple) and n and n[0] == 'call' and n[1] == 'size_of_val' and len(n[3]) == 1 and strip(n[3][0]) == S:
+        return (S, None)
+    if isinstance(n, tuple) and n and n[0] == 'bin' and n[1] == 'Mul':
+        for a, b in ((strip(n[2]), strip(n[3])), (strip(n[3]), strip(n[2]))):
+            if isinstance(a, tuple) and len(a) > 3 and a[0] == 'call' and a[1] == 'len' and len(a[3]) == 1 and strip(a[3][0]) == S:
+                if isinstance(b, tuple) and b and b[0] == 'lit' and isinstance(b[1], int):
+                    return (S, b[1])
+                if isinstance(b, tuple) and len(b) > 4 and b[0] == 'call' and b[1] == 'size_of' and b[4]:
+                    return (S, PRIM_BYTES.get(str(b[4][0])))
+    return None
+
+
 def role_name(facts, role):
     g = roles(facts).get(role)
     return tname(g['path']) if g else '<missing %s>' % role
